@@ -18,6 +18,8 @@ NextMC ==
     \/ TransOn /\ tr = "none" /\ Transition
     \/ \E n \in PreSet, k \in PostSet : EndBlock(n, k)
     \/ \E p \in PeriodSet : SetPeriod(p)
+    \/ \E m \in MaxAttSet : SetMaxAtt(m)
+    \/ \E m \in MaxDESet : SetMaxDE(m)
     \/ Rejected
 
 \* liveness cfg: stop creating work at MaxH instead of constraining (a constraint can hide non-progress cycles)
